@@ -421,14 +421,16 @@ def _check_spec(spec, tier):
         if ok:
             return
         key = (fid, clause)
+        full = dict(case, cls=spec.name, clause=clause, fid=fid)
         if key in fails:
             fails[key]['failing_cases'] += 1
-            if len(fails[key]['also']) < 6:
-                fails[key]['also'].append(case['x'] + (' / ' + case['y'] if case.get('y') else ''))
+            # every failing case of the clause, in enumeration order (tools/BOUNDED_GUIDE.md, `also`)
+            if len(fails[key]['also']) < 300 and full not in fails[key]['also']:
+                fails[key]['also'].append(full)
         if key not in fails:
             fails[key] = {'fid': fid, 'clause': clause, 'detail': f'[{spec.name}] ' + detail,
-                          'case': dict(case, cls=spec.name, clause=clause, fid=fid),
-                          'failing_cases': 1, 'also': [],
+                          'case': full,
+                          'failing_cases': 1, 'also': [dict(full)],
                           'replay_fn': 'bounded_value_classes_replay'}
 
     ents, bfails = _build(spec, tier)
@@ -2071,11 +2073,12 @@ def bounded_modelhash(tier):
     def note(clause, detail, case):
         if clause in fails:
             fails[clause]['failing_cases'] += 1
-            if len(fails[clause]['also']) < 6:
-                fails[clause]['also'].append(detail[:120])
+            # every failing case of the clause, in enumeration order (tools/BOUNDED_GUIDE.md, `also`)
+            if len(fails[clause]['also']) < 300:
+                fails[clause]['also'].append(dict(case, clause=clause))
             return
         fails[clause] = {'fid': fid, 'clause': clause, 'detail': detail, 'case': dict(case, clause=clause),
-                         'failing_cases': 1, 'also': [], 'replay_fn': 'bounded_modelhash_replay'}
+                         'failing_cases': 1, 'also': [dict(case, clause=clause)], 'replay_fn': 'bounded_modelhash_replay'}
 
     cases = nontriv = 0
     labels = list(variants)
